@@ -1,0 +1,93 @@
+//go:build verif
+
+package security
+
+import (
+	"encoding/json"
+	"fmt"
+	"os"
+	"path/filepath"
+	"sync"
+	"sync/atomic"
+)
+
+// Verification hooks (build tag verif): events of one Authenticator, emitted at
+// the points where /verif/spec/HandshakeOutcome.tla has an action: an
+// authentication exchange finished (AuthRan) and a handshake returned success
+// (HandshakeDone), with the reported outcome AND the stream's real state.
+const verifOn = true
+
+type verifState struct {
+	id  uint64
+	seq uint64
+}
+
+// VerifSink receives every event when non-nil.
+var VerifSink func(rec map[string]any)
+
+var (
+	verifObj  uint64
+	verifMu   sync.Mutex
+	verifFile *os.File
+)
+
+func init() {
+	dir := os.Getenv("CEDAR_VERIF_TRACE_DIR")
+	if dir == "" {
+		return
+	}
+	_ = os.MkdirAll(dir, 0o755)
+	f, err := os.OpenFile(filepath.Join(dir, fmt.Sprintf("security-%d.ndjson", os.Getpid())), os.O_CREATE|os.O_WRONLY|os.O_APPEND, 0o644)
+	if err != nil {
+		return
+	}
+	verifFile = f
+	VerifSink = func(rec map[string]any) {
+		b, err := json.Marshal(rec)
+		if err != nil {
+			return
+		}
+		verifMu.Lock()
+		_, _ = verifFile.Write(append(b, '\n'))
+		verifMu.Unlock()
+	}
+}
+
+func (a *Authenticator) verifEv(ev string, neg *SecurityNegotiation, kv ...any) {
+	sink := VerifSink
+	if sink == nil {
+		return
+	}
+	if a.verif.id == 0 {
+		a.verif.id = atomic.AddUint64(&verifObj, 1)
+	}
+	a.verif.seq++
+	rec := map[string]any{"o": a.verif.id, "q": a.verif.seq, "ev": ev}
+	if a.config != nil {
+		methods := make([]string, 0, len(a.config.AuthMethods))
+		for _, m := range a.config.AuthMethods {
+			methods = append(methods, string(m))
+		}
+		rec["polAuth"] = string(a.config.Authentication)
+		rec["polEnc"] = string(a.config.Encryption)
+		rec["polInt"] = string(a.config.Integrity)
+		rec["methods"] = methods
+	}
+	if a.stream != nil {
+		rec["streamEnc"] = a.stream.IsEncrypted()
+	}
+	if neg != nil {
+		rec["client"] = neg.IsClient
+		rec["auth"] = neg.Authentication
+		rec["enc"] = neg.Encryption
+		rec["method"] = string(neg.NegotiatedAuth)
+		rec["resumed"] = neg.SessionResumed
+		rec["sid"] = redactSessionID(neg.SessionId)
+		rec["user"] = neg.User
+		rec["hasKey"] = len(neg.GetSharedSecret()) > 0
+	}
+	for i := 0; i+1 < len(kv); i += 2 {
+		rec[kv[i].(string)] = kv[i+1]
+	}
+	sink(rec)
+}
